@@ -73,7 +73,7 @@ package container
 //@ func container.(*containerServer).serve props C10 C16
 //@   arith int
 //@   requires P.st == 0 && WA.tokens == 0
-//@   assigns P.st, S._all, FD._all, W._all, K._all, O._all, R._all, U._all, WA._all, FC._all
+//@   assigns P.st, S._all, FD._all, W._all, K._all, O._all, R._all, U._all, WA._all, FC._all, L._all
 //@   ensures @C16 result != nil
 //@   loop 0: invariant (P.st == 0 && WA.tokens == 0) || P.st == 9
 
@@ -81,7 +81,7 @@ package container
 //@   arith int
 //@   requires P.st == recv_next(0, int(cmd.Cmd)) && WA.tokens == 0
 //@   requires int(cmd.Cmd) == 5 ==> (cmd.ExecCmd != nil && len(msg.Fds) < 1048576 && (cmd.ExecCmd.Seccomp == nil || (len(cmd.ExecCmd.Seccomp) >= 1 && len(cmd.ExecCmd.Seccomp) <= 65535)) && forall j int :: soff(msg.Fds) <= j && j < soff(msg.Fds) + len(msg.Fds) ==> 0 <= cell(msg.Fds, j) && cell(msg.Fds, j) < 2147483648)
-//@   assigns P.st, S._all, FD._all, W._all, K._all, O._all, R._all, U._all, WA._all, FC._all
+//@   assigns P.st, S._all, FD._all, W._all, K._all, O._all, R._all, U._all, WA._all, FC._all, L._all
 //@   ensures result == nil ==> P.st == 0 || P.st == 9
 //@   ensures result == nil && P.st != 9 ==> WA.tokens == 0
 //@   case int(cmd.Cmd) == 5 && cmd.ExecCmd != nil:
@@ -134,10 +134,15 @@ package container
 //@ func container.(*containerServer).handleSymlink props C10 C14
 //@   arith int
 //@   requires P.st == 1
-//@   assigns P.st, FC._all
-//@   loop 0: invariant P.st == 1 && -1 <= rangeindex && rangeindex < len(links) && len(symlinkErrors) == len(links)
+//@   assigns P.st, FC._all, L.n, L.target, L.path, L.ok
+//@   loop 0: invariant P.st == 1 && -1 <= rangeindex && rangeindex < len(links) && len(symlinkErrors) == len(links) && fresh(symlinkErrors)
+//@   loop 0: invariant @C14 L.n == old(L.n) + rangeindex + 1
+//@   loop 0: invariant @C14 forall k int :: 0 <= k && k <= rangeindex ==> L.target[old(L.n) + k] == links[k].Target && L.path[old(L.n) + k] == links[k].LinkPath && (symlinkErrors[k] == "" <==> L.ok[old(L.n) + k])
+//@   loop 0: invariant @C14 forall k int :: rangeindex < k && k < len(links) ==> symlinkErrors[k] == ""
 //@   ensures result == nil ==> P.st == 0 || P.st == 9
 //@   callsite (*containerServer).sendReply: assert @C14 len(rep.BatchErrors) == len(links)
+//@   callsite (*containerServer).sendReply: assert @C14 L.n == old(L.n) + len(links)
+//@   callsite (*containerServer).sendReply: assert @C14 forall k int :: 0 <= k && k < len(links) ==> L.target[old(L.n) + k] == links[k].Target && L.path[old(L.n) + k] == links[k].LinkPath && (rep.BatchErrors[k] == "" <==> L.ok[old(L.n) + k])
 
 // after the start: whichever of kill / child exit comes first, everything in the container is killed
 // (kill(-1, SIGKILL)), the wait loop is asked once to reap all and its acknowledgement is consumed, and the
@@ -402,7 +407,7 @@ package container
 //@   arith bv
 //@   requires !M.pivoted && !M.detached && M.nm == 0 && M.nrm == 0 && M.nmask == 0 && len(c.Mounts) < 1048576 && len(c.MaskPaths) < 1048576
 //@   requires forall k int :: 0 <= k && k < len(c.Mounts) ==> c.Mounts[k].Flags & 32 == 0
-//@   assigns M.nm, M.m_src, M.m_tgt, M.m_type, M.m_flags, M.m_data, M.nrm, M.rm_tgt, M.rm_flags, M.root_ro, M.pivoted, M.pivot_new, M.pivot_old, M.detached, G.made
+//@   assigns M.nm, M.m_src, M.m_tgt, M.m_type, M.m_flags, M.m_data, M.nrm, M.rm_tgt, M.rm_flags, M.root_ro, M.pivoted, M.pivot_new, M.pivot_old, M.detached, G.made, L._all
 //@   ensures result == nil ==> M.pivoted && M.pivot_new == c.ContainerRoot && M.detached && M.root_ro
 //@   callsite syscall.PivotRoot: assert @C05 newroot == c.ContainerRoot && M.nm == 1 + len(c.Mounts) && !M.pivoted
 //@   callsite syscall.Chdir: assert @C05 path == c.ContainerRoot && M.nm == 1 && M.m_tgt == c.ContainerRoot && M.m_type == "tmpfs"
